@@ -194,7 +194,11 @@ func installFS(m *Machine) {
 		}
 		r.FS.Ops++
 		d := append([]Value{}, a[1].(Slice).S...)
-		r.FS.Files[p] = &SimFile{Data: d}
+		// os.WriteFile = open(O_TRUNC) + write + close: a crash can leave the file empty or with a prefix
+		nf := &SimFile{}
+		r.FS.Files[p] = nf
+		r.crashPoint("writefile:"+filepath.Base(p), &Handle{F: nf, Name: p}, d)
+		nf.Data = d
 		return nilErr()
 	}
 	I["os.ReadDir"] = func(r *Run, fr *Frame, a []Value) Value {
